@@ -15,7 +15,6 @@ def run(ctx):
     mods = c01.gen_bundles(ctx, nb, allow_recursion=True)
     stats = collections.Counter()
     fails = []          # (module text, type, op line, output, why)
-    f48_skipped = 0
     for m in mods:
         txt = genmod.module_text(m); env = dict(m["types"])
         b = bundle.Bundle(m["name"], txt, [n for n, _ in m["types"]])
@@ -27,7 +26,6 @@ def run(ctx):
         enc_lines, meta = [], []
         for n, t in m["types"]:
             feats = gfind.features(t, env)
-            if "selfloop_constraint" in feats: f48_skipped += 1; continue     # F48: validation recurses forever
             for v in vg.values(t, nvals):
                 sx = genmod.val_sexp(t, v, env)
                 for syn in c01.SYNTAXES:
@@ -53,7 +51,6 @@ def run(ctx):
         pairs = []
         for n, t in m["types"]:
             feats = gfind.features(t, env)
-            if "selfloop_constraint" in feats: continue
             pairs += [(n, syn) for syn in c01.SYNTAXES if not c01.skip_region(syn, feats, collections.Counter())]
         for _ in range(40 if ctx.quick else 400):
             if len(corpus) >= 2 and pairs:
